@@ -56,12 +56,23 @@ R3 checksum8 / classifiers: 2+3 (path terms; true-alternatives of the classifier
    4 (interval sets for `len(text)` and for the checksum value in [0, 255]), 3 (code-point sum recognised
    structurally), 6 (regular expression: syntax tree from CPython's `re._parser`, anchors / repeat counts / character
    classes compared with the table [0-9A-Za-z]; no string is ever matched).  Lemmas: L11-L15.
+   Whole-URI coverage of the x64 shape test (own obligation, `_whole_string`): 1 (the call kind match / fullmatch / search of
+   the located regex test, module-level `re.compile` constants resolved), 6 (first and last item of the pattern's parse
+   tree: `\\A` / `^` / `\\Z` / `$`, re.MULTILINE from the flags and inline flags; membership of the whole tree in the
+   backtracking-only subset before a violation is claimed), 5 (string predicates instead of a pattern: the recognised
+   len / startswith / isalnum combination).  Lemma: L28.
 R4 random_stager_uri: 2+3 (the returned value is the very term that passed the classifier call on its true edge), 5
    (specialised per `x64` = True / False, the flag's own two values), 4 (interval set of the admitted `length`), 3
    (repeat count in polynomial normal form), 6 (alphabet folded from the `string` module constants and compared with the
    table).  Lemma: L16.
 R5 staged beacon gate: 2+3 only (path conditions carrying a positive classifier call on the request URI; callee
    resolution 1; None / not None of the request 5).
+   Stored extraction results (own obligation): 3 (def-use on the path terms: which `self.A` / module-level container is
+   assigned, or handed through a mutator call, a term that contains the BeaconConfig.from_* call - through local aliases,
+   tuple assignment; the returned term of a path peeled to the state it reads), 1 (other methods of the class that store
+   what find_staged_beacon() returned in `self.A`), 2 (the returning paths a known request takes without a positive
+   classifier test of its URI), information flow: do the path conditions / the returned term read the request URI at
+   all.  Lemma: L29.
 R6 NetBIOS: 2+3 (sequence builder located by role: comprehension or one list-filling loop, analysed once), 3+4
    (structural matching of the nibble terms, polynomial normal form of the symbol / decoded-byte terms, affine index
    terms of the decoder under the loop's start/step), 6 (default offsets).  Lemmas: L17-L23.
@@ -87,7 +98,7 @@ Lemmas (each is an identity / inequality over the integers; the one-line reason 
  L10 (b + 7) // 8 == -(-b // 8) == ceil(b / 8);  b // 8 + 1 == ceil(b / 8) + 1 whenever 8 divides b.
  L11 x % 256 is in [0, 255];  x & 255 == x % 256 for every int x.   (two's complement of Python ints)
  L12 `^`/`$`/`\\A`/`\\Z` are string anchors unless re.MULTILINE turns `^`/`$` into line anchors; re.match anchors the
-     start, re.fullmatch both ends, re.search neither.  (`$` also matches before one trailing newline: not judged.)
+     start, re.fullmatch both ends, re.search neither.  (`$` also matches before one trailing newline: L28.)
  L13 without re.ASCII `\\d`, `\\w` match non-ASCII characters; `\\w` always matches `_`.   (documented in `re`)
  L14 with re.IGNORECASE and without re.ASCII the letters i, k, s also match U+0130/U+0131, U+212A, U+017F.  (ditto)
  L15 str.isalnum() and str.isascii() hold together exactly for non-empty strings over [0-9A-Za-z]; isalnum() alone
@@ -117,6 +128,21 @@ Lemmas (each is an identity / inequality over the integers; the one-line reason 
      required piece depends on lo % len(key); so slices that such a function handles must all start at multiples of
      len(key).  No integer m >= 1 is a multiple of every key length (m % L == m != 0 for every L > m, L24), likewise no
      constant rotation error c != 0.  n % k == n - k * (n // k), so n - n % k is a multiple of k (L2).
+ L28 (documented in `re`) `\\Z` matches only at len(s); `$` matches at len(s) and also at len(s) - 1 when s ends in a newline,
+     under re.MULTILINE before every newline; `\\A` only at 0, `^` at 0 and under re.MULTILINE after every newline.  A
+     pattern whose last top-level item is `\\Z` ends every match at len(s); re.match starts every match at 0; re.fullmatch
+     does both.  For a pattern built from characters, classes, greedy / lazy repeats, groups and alternation only (pure
+     backtracking: a way to match w is a way to match the first len(w) characters of w + x), a match of w that ends in `$`
+     is a match of w + "\\n", one that ends in a character position is a match of w + x for every x, and under re.search
+     a pattern that does not start with `\\A` / `^` matches x + w.  checksum8 counts the extra characters, and it does
+     not exclude them: the sums of four code points of [0-9A-Za-z] are all integers from 192 to 488 (interval sum of
+     {48..57, 65..90, 97..122} with itself: 96..244, twice: 192..488), 297 consecutive values, hence every residue modulo
+     256 - whatever the extra characters add, some '/' + four alphanumerics + extra has checksum8 93.
+ L29 A returning path of find_staged_beacon whose conditions and returned term do not read response.request.uri is taken,
+     with the same result, by two responses that differ only in the request URI.  If the returned term reads state in
+     which the function (or its caller, from the function's result) stores the BeaconConfig an extraction produced -
+     every extraction is behind the gate (first R5 obligation), so that was for a response with a stager URI or an
+     unknown request - a later response with a known non-stager request takes the path and is handed that BeaconConfig.
 """
 
 from __future__ import annotations
@@ -1265,10 +1291,14 @@ def run(ctx):
         "term or its conditions unless the path conditions confine it to an empty chunk (byte order: one byte); checksum8 returns 0 on exactly the text lengths [0, 3] and the code point sum without '/' "
         "modulo 256 on [4, inf) (interval sets from the path conditions); the classifiers' true-alternatives cover exactly checksum "
         "value 92 / 93 (interval sets over [0, 255]) and for x64 the parsed regular expression is '/' + exactly four characters of the "
-        "class [0-9A-Za-z] anchored at both ends (syntax tree, flags); a generated stager URI is returned only on the true edge of its "
+        "class [0-9A-Za-z] anchored at both ends (syntax tree, flags), and the x64 shape test constrains the whole URI - re.fullmatch, or a "
+        "pattern ending in `\\Z` under re.match / with a start anchor under re.search; `$`, which also matches before a final newline, a "
+        "missing anchor or re.MULTILINE line anchors are violations for backtracking-only patterns (first / last item of the parse tree); a generated stager URI is returned only on the true edge of its "
         "own classifier applied to that very value, for admitted lengths within [3, inf) (x64: {4}), built as '/' + `length` draws from "
         "an alphabet inside [0-9A-Za-z]; the staged beacon extraction is reachable with a known request only on paths with a positive "
-        "stager test of the request URI; the NetBIOS encoder emits (high nibble + offset, low nibble + offset) per byte (structural "
+        "stager test of the request URI, and every returning path a known request takes without such a test returns None - in particular not "
+        "object / module state in which the function or its caller stores extraction results (def-use on the path terms; violated when "
+        "neither the path conditions nor the returned term read the request URI); the NetBIOS encoder emits (high nibble + offset, low nibble + offset) per byte (structural "
         "nibble forms) and the decoder term over the pair positions (2j, 2j+1) is 16*(x - offset) + (y - offset) in normal form; "
         "every path of pack() that raises by itself admits only values outside the range representable at the width (region of "
         "the value as intervals with bounds a*2**(8*size) + b per case of signed / size None, disjoint from [-W/2, W/2 - 1] resp. "
@@ -1276,7 +1306,9 @@ def run(ctx):
     )
     rep.not_decided = [
         "self-inverse / inverse laws as such (only the structural conditions that imply them, via the lemmas in the module docstring)",
-        "odd-length NetBIOS input", "exceptions raised inside int.to_bytes / int.from_bytes themselves and range checks of pack() spelled with bit_length() or other forms than comparisons with a*2**(8*size) + b (undecided)", "minimal-width signed packing (size None, signed=True)", "`$` matching before one trailing newline in the x64 pattern",
+        "odd-length NetBIOS input", "exceptions raised inside int.to_bytes / int.from_bytes themselves and range checks of pack() spelled with bit_length() or other forms than comparisons with a*2**(8*size) + b (undecided)", "minimal-width signed packing (size None, signed=True)",
+        "whole-URI coverage of x64 patterns with look-around, conditionals, back references, atomic / possessive constructs, scoped flags or inner anchors, and of pattern objects that are not module-level re.compile constants (undecided)",
+        "extraction results kept in state the rule cannot see being written (other classes / modules, containers reached through calls), or returned on an ungated path whose conditions read the request URI (undecided)",
         "spellings outside the recognised algebraic forms (reported as undecided)",
         "block-wise xor with while-loops, stateful key iterators shared between pieces, strides the algebra cannot relate to len(key), or under path conditions that bound the key length (undecided); a piece helper is assumed to be a function of its arguments (plain module-level function without global / nonlocal)",
         "WHAT a path of unpack/pack computes from `signed` / `byteorder` when it is not the int.from_bytes / to_bytes call (only that it reads them); pack's dependence on `signed` (the bytes of a representable value do not depend on it, only the range check does: R7)",
@@ -1284,7 +1316,7 @@ def run(ctx):
     rep.trusted_base = [
         "CPython ast", "int.from_bytes / to_bytes semantics", "CPython re._parser (parse tree of the x64 URI pattern; nothing is matched)",
         "constant folder for constant expressions (string module constants, re flags)", "csverif.absint (SymPoly normal form, Itv)",
-        "lemmas L1-L27 of the rules/c20.py docstring (length algebra, floor/ceiling division, known-bits facts for a byte, regex anchor/class semantics, powers of 256 and the two's complement range, signed / byte-order dependence of from_bytes, key phase of a repeating-key XOR)",
+        "lemmas L1-L29 of the rules/c20.py docstring (length algebra, floor/ceiling division, known-bits facts for a byte, regex anchor/class semantics incl. `$` before a final newline, powers of 256 and the two's complement range, signed / byte-order dependence of from_bytes, key phase of a repeating-key XOR, results independent of the request URI)",
     ]
     from csverif import AnalysisError
 
@@ -2922,7 +2954,7 @@ def _whole_string(kind, pattern, flags=0):
     if start == "line":
         return False, "with re.MULTILINE `^` also matches after every newline: any text + '\\n' in front of a match is accepted"
     if end == "newline":
-        return False, "`$` also matches just before a final newline: whenever w is accepted, so is w + '\\n' (5 + 1 characters; the newline counts towards checksum8)"
+        return False, "`$` also matches just before a final newline: whenever w is accepted, so is w + '\\n' (one character more; the newline counts towards checksum8)"
     if end == "line":
         return False, "with re.MULTILINE `$` matches before every newline: whenever w is accepted, so is w + '\\n' + any text"
     return False, "the pattern has no end anchor: whenever w is accepted, so is w + any text"
